@@ -201,6 +201,9 @@ def c01(acc):
     # the property speaks of "the pull reader": the buffered and async sources implement the same scans separately
     # (their chunk-level behaviour is C02's subject; here: fixed piece sizes and all cuts of short inputs)
     replay_reader(acc, p2, "chunks", extra=["--max-all-cuts", 7, "--stride", 5 if q else 2])
+    # the events after a skip call (read_to_end* / read_text), also a failing one, are still the document's events
+    _, p6 = mc_ops(acc, 3, 0, 1, "trim", [], ["Inv_ReadRef", "Inv_SkipRef"], "MC_Ops-c01skip")
+    replay_reader(acc, p6, "slice", extra=["--stride", 2 if q else 1])
     trace_reader(acc, 400 if q else 3000, "doc,mut,rand,corpus", "plain", sources="slice", max_len=600 if q else 4000)
     trace_reader(acc, 200 if q else 2000, "doc,mut,corpus", "plain", sources="all", max_len=400 if q else 3000, seed_off=4)
     return acc.finish()
@@ -264,6 +267,9 @@ def c03(acc):
     _, p2 = mc_reader(acc, 2, "all", ["Inv_Total"], name="MC_Reader-c03all")
     replay_reader(acc, p2, "chunks", extra=["--max-all-cuts", 6, "--stride", 4])
     replay_reader(acc, p2, "slice")      # incl. the namespace-aware reader (own bookkeeping per Start/End, e.g. on unmatched end tags)
+    # positions stay within the input when raw bytes are taken through Reader::stream() (io::Read, BufRead and the tokio traits)
+    _, ps = mc_ops(acc, 2 if q else 3, 0, 0, "default", [], ["Inv_StreamTiling"], "MC_Ops-c03stream", streams=2)
+    replay_reader(acc, ps, "chunks", extra=["--max-all-cuts", 0, "--stride", 3 if q else 1])
     trace_reader(acc, 500 if q else 5000, "rand,small,mut,corpus", "flips", sources="all", max_len=300 if q else 2000)
     trace_reader(acc, 300 if q else 3000, "rand,small,mut", "mix", sources="all", max_len=200, enc=True, seed_off=1)
     return acc.finish()
@@ -390,6 +396,8 @@ def c12(acc):
     replay_reader(acc, p, "chunks", extra=["--max-all-cuts", 0])
     _, p2 = mc_ops(acc, 2 if q else 3, 1, 2 if q else 1, "four", ["tts", "tte", "eee", "cen"], invs, "MC_Ops-c12b")
     replay_reader(acc, p2, "slice", extra=["--stride", 2 if q else 1])
+    # a skip call spans many refills of a buffered source: interrupts at any of them are invisible, a hard error is reported by the call
+    replay_reader(acc, p, "faults", extra=["--stride", 7 if q else 2])
     trace_reader(acc, 400 if q else 4000, "doc,mut,corpus", "skips", sources="all", max_len=400 if q else 3000)
     return acc.finish()
 
